@@ -766,6 +766,20 @@ def law_sweep(ctx, mc, atm, only=None):
                         f"first offending step at level {int(np.argmax(np.diff(z) <= 0))}", case)
                 T0 = float(rng.uniform(180, 320))
                 zi = np.asarray(call(atm.pressure2height, p, np.full(p.size, T0)))
+                # an isothermal column given as ONE number (float, numpy scalar, 0-d array, length-1 array): the same heights
+                for label_, Tsc in (("float", T0), ("numpy scalar", np.float64(T0)), ("0-d array", np.array(T0)), ("length-1 array", np.array([T0]))):
+                    if p.size == 1 and label_ == "length-1 array":
+                        continue
+                    try:
+                        zs = np.asarray(call(atm.pressure2height, p, Tsc))
+                    except Raised as e:
+                        bad("pressure2height:scalar-temperature", f"pressure2height(p, T) raised {e} for T given as {label_}", dict(case, T0=T0))
+                        break
+                    evals[0] += 1
+                    if zs.shape != zi.shape or not np.all(np.abs(zs - zi) <= 1e-9 * (1 + np.abs(zi))):
+                        bad("pressure2height:scalar-temperature", f"isothermal column at {T0:.2f} K: T given as {label_} gives heights {small(zs)}, "
+                            f"T given as a constant profile gives {small(zi)}", dict(case, T0=T0))
+                        break
                 H = Rd * T0 / g
                 ana = H * np.log1p((p[0] - p) / p)                      # (R T / g) ln(p0 / p), accurate near p0
                 rm1 = (p[:-1] - p[1:]) / p[1:]                           # r - 1 without cancellation
@@ -822,6 +836,26 @@ def law_sweep(ctx, mc, atm, only=None):
             if not (abs(th - want) <= 1e-10 and abs(tp - want) <= 1e-10 and abs(th - tp) <= 1e-10):
                 bad("standard_atmosphere:levels-agree", f"tabulated level {k}: T(h = {float(tab['h'][k])}) = {th!r}, "
                     f"T(p = {float(tab['p'][k])}) = {tp!r}, table {want!r}", {"level": k})
+        # beyond both ends of the table the profile continues the last / first segment linearly (documented: "values outside
+        # the table are extrapolated"), in height and in pressure addressing
+        hs = [float(v) for v in tab["h"]]
+        ps_ = [float(v) for v in tab["p"]]
+        ts = [float(v + tab["K"]) for v in tab["temp"]]
+        for coord, xs_, kw_ in (("height", hs, {}), ("pressure", ps_, {"coordinates": "pressure"})):
+            order = np.argsort(xs_)
+            xo, to = np.asarray(xs_)[order], np.asarray(ts)[order]
+            for x_out, (i0, i1) in ((xo[-1] + 0.07 * (xo[-1] - xo[0]), (-2, -1)), (xo[-1] + 0.2 * (xo[-1] - xo[0]), (-2, -1)),
+                                    (xo[0] - 0.01 * (xo[-1] - xo[0]), (0, 1))):
+                if coord == "pressure" and x_out <= 0:
+                    x_out = xo[0] * 0.3
+                # pressure addressing is piecewise linear in ln p (as the translated model has it)
+                fx = (lambda v: math.log(v)) if coord == "pressure" else (lambda v: v)
+                want = to[i0] + (to[i1] - to[i0]) / (fx(xo[i1]) - fx(xo[i0])) * (fx(x_out) - fx(xo[i0]))
+                got = float(np.asarray(call(atm.standard_atmosphere, float(x_out), **kw_)).reshape(()))
+                evals[0] += 1
+                if not abs(got - want) <= 1e-9 * (1 + abs(want)):
+                    bad("standard_atmosphere:extrapolation", f"standard_atmosphere({x_out!r}, {coord}) = {got!r} outside the table; the linear "
+                        f"continuation of the outermost segment gives {want!r}", {"coordinate": coord, "x": float(x_out)})
         try:
             atm.standard_atmosphere(1000.0, coordinates="sigma")
             bad("standard_atmosphere:coordinates", "unknown coordinates accepted", {"coordinates": "sigma"})
